@@ -111,7 +111,7 @@ prop("C11", claimed=True, level="fault_enumeration", engine="E-FAULT (SimDirecto
      design_ref="3/C11")
 
 prop("C01", claimed=True, level="fault_enumeration", engine="E-CRASH (SimDirectory operation logs, isolated workers)",
-     technique="exhaustive crash-point x crash-image enumeration: every prefix of the storage-operation log of each history (8 designed histories and every step sequence up to a length over a 7-step alphabet), every persistence outcome within a deviation bound of the two extremes plus every issue-order prefix and every subset of pending directory operations, each recovered with the real Index::open / searcher / writer",
+     technique="exhaustive crash-point x crash-image enumeration: every prefix of the storage-operation log of each history (9 designed histories and every step sequence up to a length over a 7-step alphabet), every persistence outcome within a deviation bound of the two extremes plus every issue-order prefix and every subset of pending directory operations, each recovered with the real Index::open / searcher / writer",
      text="Histories run on the real IndexWriter over SimDirectory, which logs every create / write / flush / terminate / atomic write / delete / directory sync with its thread. For EVERY log prefix after index creation, crash images are enumerated from the durability model (data durable after terminate; atomic-write content durable, its rename pending; creations, renames, unlinks pending until the next directory sync): both extremes, all images within 2 deviations of them (per entry: any prefix of its pending operations; per un-synced inode: nothing / half / all but one byte / everything), every issue-order prefix of the pending operations, all 2^n subsets when n <= 8 (thorough 12) entries are pending. Each image must re-open, expose exactly the last returned commit or the commit in flight, validate the checksum of every referenced file, read no unreferenced file, and (once per canonical image) accept a new writer, two delete-only commits re-using the interrupted commit's opstamps, an add, a commit and a collection, after which a fresh open shows exactly the expected documents. Generated histories: all sequences of <= 3 (thorough 4) steps over {add, delete oldest, commit, rollback, merge all, collect, restart writer} closed by a commit, deviation bound 1.",
      note="The durability model is an assumption about the file system, bound to MmapDirectory by the conformance pass (strace of the same workloads: fdatasync before close for every terminate, fdatasync before rename for every atomic write, fsync of the directory for every sync_directory). Images are deduplicated by a canonical form (contents of meta.json and of the files it references; for the continuation also .managed.json and names of unreferenced delete files) whose soundness rests on recovery reading nothing else, which is asserted on every recovery. One writer configuration per designed history (1-2 workers, compressor thread on / off); crash points are operation boundaries, a torn single write is covered by the half / all-but-one content outcomes.",
      design_ref="3/C01")
